@@ -98,12 +98,12 @@ def run(ck):
         if k not in seen:
             seen.add(k)
             uniq.append(b)
-    limit = 300 if quick else 2000
+    limit = 200 if quick else 2000
     if len(uniq) > limit:
         uniq = rng.sample(uniq, limit)
     for b in uniq:
         replay(ck, em, b, rng, n)
-    zl = 150 if quick else 1500
+    zl = 90 if quick else 1500
     zrecs.sort(key=lambda b: repr(b["hist"]))
     for b in (rng.sample(zrecs, zl) if len(zrecs) > zl else zrecs):
         replay(ck, em, b, rng, 3)
